@@ -5,4 +5,4 @@ Require Extraction.
 Require Import ExtrOcamlBasic.
 From HV Require Import Meta.MetaModel Meta.MetaSpec.
 Extraction Language OCaml.
-Extraction "Extract/meta_model.ml" MetaModel.extract_impl MetaSpec.extract_spec.
+Extraction "Extract/meta_model.ml" MetaModel.extract_impl MetaModel.meta_arm MetaSpec.extract_spec MetaSpec.meta_label_spec.
